@@ -113,6 +113,38 @@ def builders(model):
         B['ComplexEmbedding[%s,scalar=a+bj]' % f] = (
             lambda I, S, f=f: inst(I, 'ComplexEmbedding', S[f],
                                    sym_scalar('s', True)))
+    # product-space operators
+    def ps(S, weighted):
+        from ..spacemodel import NPSpace
+        w = [Rat.var('p%d' % i) for i in range(3)] if weighted else None
+        return NPSpace([S['R'], S['R'], S['R']], w)
+    for wt in (False, True):
+        t = 'weighted pspace' if wt else 'pspace'
+        B['ComponentProjection[%s]' % t] = (
+            lambda I, S, wt=wt: inst(I, 'ComponentProjection', ps(S, wt), 1))
+        B['ComponentProjectionAdjoint[%s]' % t] = (
+            lambda I, S, wt=wt: inst(I, 'ComponentProjectionAdjoint',
+                                     ps(S, wt), 2))
+
+    def two_ops(I, S, f='R'):
+        return [inst(I, 'ScalingOperator', S[f], sym_scalar(
+            's', f.startswith('C'))), inst(I, 'MultiplyOperator',
+                                           sym_elem(S[f], 'm'))]
+    for f in ('R', 'C', 'RA'):
+        B['BroadcastOperator[%s]' % f] = (
+            lambda I, S, f=f: inst(I, 'BroadcastOperator', *two_ops(I, S, f)))
+        B['ReductionOperator[%s]' % f] = (
+            lambda I, S, f=f: inst(I, 'ReductionOperator', *two_ops(I, S, f)))
+        B['DiagonalOperator[%s]' % f] = (
+            lambda I, S, f=f: inst(I, 'DiagonalOperator', *two_ops(I, S, f)))
+
+    def block(I, S, f):
+        a, b = two_ops(I, S, f)
+        c = inst(I, 'ScalingOperator', S[f], Rat.var('t'))
+        return inst(I, 'ProductSpaceOperator', [[a, b], [0, c]])
+    for f in ('R', 'C'):
+        B['ProductSpaceOperator[[A,B],[0,C]][%s]' % f] = (
+            lambda I, S, f=f: block(I, S, f))
     # arithmetic on top of concrete leaves (dunders of Operator)
     B['expr:(s*RealPart + ImagPart)[C]'] = (
         lambda I, S: I.binop(ast.Add, I.binop(ast.Mult, Rat.var('s'), inst(
@@ -127,7 +159,7 @@ def builders(model):
 class H5(SMHooks):
     def __init__(self):
         SMHooks.__init__(self)
-        self.signs = Signs({'w', 'w0', 'w1'})
+        self.signs = Signs({'w', 'w0', 'w1', 'p0', 'p1', 'p2'})
 
     def on_decide(self, interp, cond, node):
         # symbolic parameters are generic (non-zero, not special values)
@@ -211,4 +243,4 @@ def run(rep, model):
             rep.holds('R8', cons, 'adjoint identity holds identically%s'
                       % (' (real parts)' if r.get('real_identity')
                          else ''))
-    rep.floor('R8', 'evaluated operator instances', n, 40)
+    rep.floor('R8', 'evaluated operator instances', n, 55)
